@@ -202,7 +202,14 @@ pub fn process_text_attr(element: &SvgElement) -> Result<(SvgElement, Vec<SvgEle
     // the original element's desired style (e.g. setting `style="fill:red"`
     // on a rect with `text` present would cause red-on-red invisible text).
     if let Some(ref style) = text_style {
-        text_elem.set_attr("style", style);
+        // (a <text> element's own style stays, with text-style after it)
+        let style = match text_elem.get_attr("style") {
+            Some(own) if !own.trim().is_empty() => {
+                format!("{}; {}", own.trim().trim_end_matches(';'), style)
+            }
+            _ => style.clone(),
+        };
+        text_elem.set_attr("style", &style);
     }
 
     // The following should *not* be inherited by the text element.
